@@ -83,6 +83,9 @@ func c05(r *Report) propMeta {
 	r.Rule("C05.R7", "E15 wire fields validated by their own type")
 	r.WireFieldsValidated("wire", "x/tss/types", []string{"MsgSubmitDEs"}, 2)
 
+	r.Rule("C05.R9", "E20 event agreement: what the cylinder DE / signing workers read is emitted")
+	r.EventAgreement("events", 2, "cylinder/workers/de", "cylinder/workers/signing")
+
 	return propMeta{
 		Decided: []string{
 			"R1 DE and DEQueue stores written only by SetDE/DeleteDE/SetDEQueue; DeleteDE<-{DequeueDE,ResetDE}; DequeueDE<-DequeueDEs<-AssignMembersForSigning<-InitiateNewSigningRound",
@@ -93,6 +96,7 @@ func c05(r *Report) propMeta {
 			"R6 every KV-store Get/Has/Delete of x/tss uses a key builder of x/tss/types that some Set of the module also uses (a probe of an iteration prefix or of a sibling family is always-empty state)",
 			"R7 both points of every submitted DE reach tss.Point.Validate from MsgSubmitDEs.ValidateBasic",
 			"R8 tss InitGenesis rebuilds each member's queue from GenesisState.DEs in list order: no unstable sort (or any other lint hit) in the import path (seed C05-6 sorted the flat list with sort.Slice, which permutes one member's pairs for lists longer than 12)",
+			"R9 the (event type, attribute key) pairs the cylinder DE and signing workers read (request_signature.signing_id, pub_d / pub_e of consumed and deleted DEs) are emitted by x/tss: the daemon replaces exactly the nonces the chain consumed",
 		},
 		Undecided: []string{"that the daemon never re-registers the same (D,E) pair (randomness)", "FIFO order as a history property beyond R2's head arithmetic"},
 		Assume:    []string{"CacheContext isolates writes until writeFn is called", "msg handlers are atomic (baseapp runTx)", "VTA resolves the bandtss/tss keeper interfaces and callback router"},
